@@ -228,6 +228,23 @@ func dataFamily(raw json.RawMessage) Result {
 		return res
 	}
 	_ = env
+	// the same pointer rendered again after what it points to has changed shows the new value (what is visible is the
+	// value at the time of the call)
+	if v := reflect.ValueOf(val); c.Probe == "" && c.Path == "" && val != nil && v.Kind() == reflect.Ptr && !v.IsNil() && v.Elem().CanSet() {
+		switch v.Elem().Kind() {
+		case reflect.Int, reflect.Int8, reflect.Int16, reflect.Int32, reflect.Int64, reflect.Uint, reflect.Uint8, reflect.Uint16, reflect.Uint32, reflect.Uint64,
+			reflect.String, reflect.Bool, reflect.Float32, reflect.Float64:
+			v.Elem().Set(reflect.Zero(v.Elem().Type()))
+			again, aerr := textwire.EvaluateString(src, map[string]any{"d": val})
+			fresh, ferr := textwire.EvaluateString(src, map[string]any{"d": reflect.Zero(v.Elem().Type()).Interface()})
+			if (aerr == nil) != (ferr == nil) || again != fresh {
+				res.Status, res.Kind = "viol", "stale-pointer"
+				res.Msg = fmt.Sprintf("after the pointee was set to its zero value the same pointer renders (%q, %v); the zero value itself renders (%q, %v)", again, aerr, fresh, ferr)
+				return res
+			}
+			return res // (the data was changed on purpose: skip the unchanged-data comparison)
+		}
+	}
 	// the caller's data is never modified by rendering
 	if len(data) != 2 || data["other"] != 1 {
 		res.Status, res.Kind, res.Msg = "viol", "data-modified", "the data map itself was changed"
